@@ -571,3 +571,11 @@ _REDUCE_CHAN = '    n_clusters, n_features = np.shape(stats[0][1])\n    counts =
 _REDUCE_CHAN_UNGUARDED = '    n_clusters, n_features = np.shape(stats[0][1])\n    counts = np.zeros((n_clusters, 1))\n    means = np.zeros((n_clusters, n_features))\n    scatter = np.zeros((n_clusters, n_features))\n    for closest_centroid_indices, means_sum, variances_sum in stats:\n        block_count = np.bincount(closest_centroid_indices, minlength=n_clusters)[:, None]\n        total = counts + block_count\n        delta = means_sum - block_count * means\n        scatter += variances_sum - 2 * means * means_sum + block_count * means ** 2 - delta ** 2 / total\n        means += delta / total\n        counts = total\n    weights_count = counts[:, 0]\n    weights = weights_count / weights_count.sum()\n    variances = scatter / weights_count[:, None]\n    return (variances, weights)'
 V("R2-chan-merge-guarded", ["C04", "C13", "C15", "C20", "C06", "C16"], "kmeans", _REDUCE_OLD, _REDUCE_CHAN, "block-by-block (Chan) merge of counts, means and scatter with the running count floored at 1: same result for every chunking", kind="benign")
 V("R2-chan-merge-unguarded", ["C13"], "kmeans", _REDUCE_OLD, _REDUCE_CHAN_UNGUARDED, "same merge dividing by the raw running count: a cluster absent from the leading block gets 0/0 = NaN that persists")
+
+# ----------------------------------------------------------------------------- folds over per-class / per-block partial results (second seeding round)
+_RI_OLD = "        ret.append(functools.reduce(operator.iadd, a))"
+V("R2-reduce-iadd-loop", ["C09", "C12", "C04"], "factor_analysis", _RI_OLD, "        acc = a[0]\n        for x in a[1:]:\n            acc += x\n        ret.append(acc)", "reduce_iadd written as an explicit loop", kind="benign")
+V("R2-reduce-iadd-drop-last", ["C09", "C12"], "factor_analysis", _RI_OLD, "        ret.append(functools.reduce(operator.iadd, a[:-1]))", "last class's accumulators never folded")
+V("R2-reduce-iadd-pairs", ["C09", "C12", "C04"], "factor_analysis", _RI_OLD, "        a = list(a)\n        while len(a) > 1:\n            a = [operator.iadd(a[i], a[i + 1]) for i in range(0, len(a) - 1, 2)]\n        ret.append(a[0])", "balanced tree that loses the unpaired last element of odd levels")
+V("R2-reduce-iadd-pairs-ok", ["C09", "C12", "C04"], "factor_analysis", _RI_OLD, "        a = list(a)\n        while len(a) > 1:\n            nxt = [operator.iadd(x, y) for x, y in zip(a[0::2], a[1::2])]\n            if len(a) % 2:\n                nxt.append(a[-1])\n            a = nxt\n        ret.append(a[0])", "balanced tree that carries the unpaired last element", kind="benign")
+V("R2-gmm-mstep-pairs", ["C02", "C03", "C04"], "gmm", "    statistics = functools.reduce(operator.iadd, statistics)", "    statistics = list(statistics)\n    while len(statistics) > 1:\n        statistics = [operator.iadd(a, b) for a, b in zip(statistics[0::2], statistics[1::2])]\n    statistics = statistics[0]", "GMM M-step folds the per-block statistics by neighbour pairs and drops the odd tail")
